@@ -1,5 +1,6 @@
 import GoomVerif.Lemmas.C06L
 import GoomVerif.Model.MethodH
+import GoomVerif.Model.MethodG
 /-! Lemmas about the handle-level model `Model/MethodH.lean` (core Lean only). -/
 namespace C06HL
 open Method (Str Entry Res Ty EKey symIndex getOrCreate structKey bracket objName resolveSM exportMethodName exportStructName)
@@ -490,3 +491,70 @@ theorem run_sim (syms : List Str) (entries : List Entry) : ∀ (steps : List Met
     exact ⟨h2.1, by rw [h2.2]⟩
 
 end C06HL
+
+namespace C06GL
+open Method (Str Entry Res Ty symIndex resolveSM)
+open MethodH (aget)
+open MethodG C06L
+
+/-- a step that does not re-create guard variable `h` keeps what `h` will install -/
+theorem gstep_keeps (syms : List Str) (entries : List Entry) (s : GState) (k h : Nat) (st : GStep) (g : G)
+    (hb : st.binds h = false) (hg : aget s.guards h = some g) :
+    ∃ g', aget (gstep syms entries s k st).1.guards h = some g' ∧ g'.name = g.name ∧ g'.k = g.k := by
+  cases st with
+  | gnew h' t m =>
+    simp only [GStep.binds, decide_eq_false_iff_not] at hb
+    simp only [gstep]
+    split
+    · exact ⟨g, hg, rfl, rfl⟩
+    · split
+      · exact ⟨g, hg, rfl, rfl⟩
+      · exact ⟨g, by simp [aget, hb, hg], rfl, rfl⟩
+  | gapply h' =>
+    simp only [gstep]
+    split
+    · exact ⟨g, hg, rfl, rfl⟩
+    · rename_i g0 hg0
+      split
+      · exact ⟨g, hg, rfl, rfl⟩
+      · by_cases hh : h' = h
+        · subst hh
+          rw [hg] at hg0
+          cases hg0
+          exact ⟨{ g with applied := true }, by simp [aget], rfl, rfl⟩
+        · exact ⟨g, by simp [aget, hh, hg], rfl, rfl⟩
+  | gunpatch h' =>
+    simp only [gstep]
+    split
+    · exact ⟨g, hg, rfl, rfl⟩
+    · split
+      · split
+        · exact ⟨g, hg, rfl, rfl⟩
+        · exact ⟨g, hg, rfl, rfl⟩
+      · exact ⟨g, hg, rfl, rfl⟩
+
+theorem grun_keeps (syms : List Str) (entries : List Entry) : ∀ (steps : List GStep) (s : GState) (k h : Nat) (g : G),
+    (∀ st ∈ steps, st.binds h = false) → aget s.guards h = some g →
+    ∃ g', aget (grun syms entries s k steps).1.guards h = some g' ∧ g'.name = g.name ∧ g'.k = g.k := by
+  intro steps
+  induction steps with
+  | nil => intro s k h g _ hg; exact ⟨g, hg, rfl, rfl⟩
+  | cons st rest ih =>
+    intro s k h g hb hg
+    obtain ⟨g1, h1, hn1, hk1⟩ := gstep_keeps syms entries s k h st g (hb st (by simp)) hg
+    obtain ⟨g2, h2, hn2, hk2⟩ := ih (gstep syms entries s k st).1 (k + 1) h g1 (fun st' hs => hb st' (by simp [hs])) h1
+    exact ⟨g2, by simpa [grun] using h2, hn2.trans hn1, hk2.trans hk1⟩
+
+theorem grun_append (syms : List Str) (entries : List Entry) : ∀ (a b : List GStep) (s : GState) (k : Nat),
+    (grun syms entries s k (a ++ b)).1 = (grun syms entries (grun syms entries s k a).1 (k + a.length) b).1 := by
+  intro a
+  induction a with
+  | nil => intro b s k; simp [grun]
+  | cons st rest ih =>
+    intro b s k
+    simp only [List.cons_append, grun, List.length_cons]
+    rw [ih b _ (k + 1)]
+    congr 2
+    omega
+
+end C06GL
